@@ -47,7 +47,15 @@ pub struct C02 {
     /// (seed, chunk index, number of payload bytes covered) of the text chunks of the IcyDraw seeds
     icy_chunks: Vec<(usize, usize, usize)>,
     n_icychunk: u64,
+    n_unicode: u64,
 }
+
+/// characters beyond Latin-1 that a text file in UTF-8 (byte order mark first) hands to the parsers: table boundaries,
+/// the mark itself, box drawing, the planes' last code points, and characters whose low 16 bits are a surrogate
+const UNICODE_CHARS: [u32; 22] = [
+    0x100, 0x17F, 0x2500, 0x263A, 0x2588, 0xD7FF, 0xE000, 0xFEFF, 0xFFFD, 0xFFFF, 0x1_0000, 0x1_D800, 0x1_DFFF, 0x2_D800, 0x1_F600, 0xE_0001, 0x10_D800, 0x10_FFFF, 0x80, 0x9B, 0xA0,
+    0xFF,
+];
 
 /// values planted into the first bytes of an IcyDraw chunk payload: the small selector values (role, mode, flags ...), the
 /// byte extremes, and +1 / -1
@@ -270,6 +278,46 @@ impl C02 {
                 "icy-chunk-byte",
             );
         }
+        let k8 = k7 - self.n_icychunk;
+        if k8 < self.n_unicode {
+            // a text file that starts with the UTF-8 byte order mark is decoded as UTF-8: its parser then meets characters
+            // beyond 0xFF - as text, as the character of a repeat command, as parameter, intermediate or final "byte" of
+            // a control sequence, after every lead-in
+            let mut rng = ctx.rng(k);
+            let (ext, emu) = *rng.pick(&GRAMMAR_EXTS);
+            let n = 1 + rng.usize(40);
+            let raw = crate::gen_stream::token_stream(&mut rng, emu, 80, 25, n, false);
+            let mut text = String::from("\u{FEFF}");
+            let mut after_lead_in = false;
+            for b in raw {
+                let p = if after_lead_in { 3 } else { 12 };
+                if rng.chance(1, p) {
+                    let c = *rng.pick(&UNICODE_CHARS);
+                    if let Some(c) = char::from_u32(c) {
+                        text.push(c);
+                    }
+                    if rng.bool() {
+                        after_lead_in = false;
+                        continue;
+                    }
+                }
+                after_lead_in = matches!(b, 0x1B | 0x16 | 0x19 | 0x01 | b'@' | b'|' | b'[' | b';' | b'^');
+                text.push(b as char);
+            }
+            if rng.chance(1, 6) {
+                // a SAUCE record cannot follow (its bytes are not UTF-8): the file ends in text
+                text.push('\u{1A}');
+            }
+            return (
+                LoadCase {
+                    api: "buf".into(),
+                    ext: ext.into(),
+                    bytes: text.into_bytes(),
+                    origin: format!("{emu} grammar stream as UTF-8 (byte order mark) .{ext}"),
+                },
+                "unicode-text-file",
+            );
+        }
         // random
         let mut rng = ctx.rng(k);
         let si = rng.usize(self.seeds.len());
@@ -425,7 +473,7 @@ impl Prop for C02 {
         "C02"
     }
     fn rule(&self) -> &'static str {
-        "seed corpus = output of every engine writer (14 formats, with/without SAUCE and comments, compressed/raw) on 10 generated documents incl. ice-mode 80-column pictures (ADF/IDF), an ATASCII buffer, multi-layer/custom-font/large-palette IcyDraw, a hand-made PETSCII file, a feature ANSI file, PSF1/PSF2/raw fonts, the shipped TDF font, 5 palette formats, a bare SAUCE record. cases: (truncation) every prefix length of every seed (dense for small files and in header/tail regions, strided beyond); (byte-corruption) every byte of the first 160 and last 140 bytes x {0,1,0x7F,0x80,0xFF,+1,-1}; (cross-extension) every seed under 27 extensions incl. unknown and upper-case; (grammar) token streams in the grammar of the format's own emulation (ANSI incl. modes/margins/macros, Avatar, PCBoard, Ctrl-A, Renegade, PETSCII, ATASCII, ASCII) loaded as files, with and without state prefix and SAUCE tail; (nul-free) every seed with all 0x00 bytes after offset 0/8/16/24/32/48/64 replaced by 0xFF, combined with each of the next 40 bytes set to 0xFF/0xD1/0x80 or one of 16 cuts (terminator scans that run off the end); (icy-chunk-byte) every one of the first 64 (thorough: 160) bytes of the decoded payload of every text chunk of every IcyDraw seed - incl. a hand-made one whose layer continues in a LAYER_0~1 chunk - x {0..=5, 0x7F, 0x80, 0xFF, +1, -1}, re-encoded into a valid PNG; (text-number) every decimal number written in a seed (up to 150 per seed: palette counts and components, CSI parameters, @X / | codes) replaced by each of 14 extremes from 0 to 2^64-1 and a 26-digit value; (random) SAUCE tails from field extremes, structure-aware IcyDraw chunk mutation (decode zTXt, mutate payload, re-encode with valid CRC), LE field extremes, splices, inserts, deletes, repeats, pure random. Each case is one call of Buffer::from_bytes / SauceData::extract / BitFont::from_bytes / TheDrawFont::from_tdf_bytes / Palette::load_palette|import_palette under catch_unwind. distinct_nontrivial = distinct (api, extension, class, result, size, layers) fingerprints"
+        "seed corpus = output of every engine writer (14 formats, with/without SAUCE and comments, compressed/raw) on 10 generated documents incl. ice-mode 80-column pictures (ADF/IDF), an ATASCII buffer, multi-layer/custom-font/large-palette IcyDraw, a hand-made PETSCII file, a feature ANSI file, PSF1/PSF2/raw fonts, the shipped TDF font, 5 palette formats, a bare SAUCE record. cases: (truncation) every prefix length of every seed (dense for small files and in header/tail regions, strided beyond); (byte-corruption) every byte of the first 160 and last 140 bytes x {0,1,0x7F,0x80,0xFF,+1,-1}; (cross-extension) every seed under 27 extensions incl. unknown and upper-case; (grammar) token streams in the grammar of the format's own emulation (ANSI incl. modes/margins/macros, Avatar, PCBoard, Ctrl-A, Renegade, PETSCII, ATASCII, ASCII) loaded as files, with and without state prefix and SAUCE tail; (nul-free) every seed with all 0x00 bytes after offset 0/8/16/24/32/48/64 replaced by 0xFF, combined with each of the next 40 bytes set to 0xFF/0xD1/0x80 or one of 16 cuts (terminator scans that run off the end); (icy-chunk-byte) every one of the first 64 (thorough: 160) bytes of the decoded payload of every text chunk of every IcyDraw seed - incl. a hand-made one whose layer continues in a LAYER_0~1 chunk - x {0..=5, 0x7F, 0x80, 0xFF, +1, -1}, re-encoded into a valid PNG; (unicode-text-file) grammar streams of every text format as UTF-8 files behind a byte order mark, with characters beyond 0xFF (table boundaries, U+FEFF, U+FFFD, U+FFFF, plane ends, characters whose low 16 bits are a surrogate) as text, as repeat character and count, inside and right after the lead-in of control sequences; (text-number) every decimal number written in a seed (up to 150 per seed: palette counts and components, CSI parameters, @X / | codes) replaced by each of 14 extremes from 0 to 2^64-1 and a 26-digit value; (random) SAUCE tails from field extremes, structure-aware IcyDraw chunk mutation (decode zTXt, mutate payload, re-encode with valid CRC), LE field extremes, splices, inserts, deletes, repeats, pure random. Each case is one call of Buffer::from_bytes / SauceData::extract / BitFont::from_bytes / TheDrawFont::from_tdf_bytes / Palette::load_palette|import_palette under catch_unwind. distinct_nontrivial = distinct (api, extension, class, result, size, layers) fingerprints"
     }
     fn meta(&self, _ctx: &Ctx) -> Value {
         json!({"floor_evaluations": 20000, "floor_distinct": 300, "plain_pass": "quick",
@@ -488,7 +536,8 @@ impl Prop for C02 {
             }
         }
         self.n_icychunk = self.icy_chunks.iter().map(|c| c.2 as u64).sum::<u64>() * ICY_CHUNK_VALUES.len() as u64;
-        self.n_trunc + self.n_flip + self.n_cross + self.n_grammar + self.n_nulfree + self.n_textnum + self.n_icychunk + ctx.tier.pick(60_000, 3_000_000)
+        self.n_unicode = ctx.tier.pick(30_000, 400_000);
+        self.n_trunc + self.n_flip + self.n_cross + self.n_grammar + self.n_nulfree + self.n_textnum + self.n_icychunk + self.n_unicode + ctx.tier.pick(60_000, 3_000_000)
     }
     fn run_case(&mut self, ctx: &mut Ctx, k: u64) {
         let (case, class) = self.case_for(ctx, k);
